@@ -1,11 +1,11 @@
-(* Extract.v -- extraction of the executable models and oracles to OCaml.
+(* Extract_esc.v -- extraction of the executable models and oracles to OCaml.
    ExtrOcamlBasic only: bool, option, unit, list, prod, sumbool map to the OCaml
    types; nat, positive, N, Z stay the extracted inductive types. *)
 From Coq Require Import Extraction ExtrOcamlBasic NArith ZArith.
 From Qv Require Import EscapeModel.
 Extraction Language OCaml.
 Set Extraction Optimize.
-Extraction "model.ml"
+Extraction "model_esc.ml"
   N.add N.mul N.sub N.div_eucl N.compare Z.add Z.mul Z.sub Z.div_eucl Z.compare Z.of_N Z.to_N Z.opp
   EscapeModel.escape_w EscapeModel.var_text EscapeModel.decode EscapeModel.c03_emit
   EscapeModel.c03_oracle_kind EscapeModel.safeb.
